@@ -102,6 +102,11 @@ func txView(tx *bt.Tx) (v Ev) {
 
 // ---- the calls ---------------------------------------------------------------------------
 
+// plainReader hides every method of the underlying reader except Read.
+type plainReader struct{ r io.Reader }
+
+func (p plainReader) Read(b []byte) (int, error) { return p.r.Read(b) }
+
 type oneByteReader struct{ r io.Reader }
 
 func (o oneByteReader) Read(p []byte) (int, error) {
@@ -162,9 +167,26 @@ func doParse(c wcase) Ev {
 			if err == nil {
 				txs = []*bt.Tx{tx}
 			}
+		case "readerp":
+			// a plain io.Reader (no ReadByte, no Len): a file, a socket, a pipe
+			src := bytes.NewReader(c.in)
+			tx := &bt.Tx{}
+			used, err = tx.ReadFrom(plainReader{src})
+			e["left"] = src.Len()
+			if err == nil {
+				txs = []*bt.Tx{tx}
+			}
 		case "list":
 			var tt bt.Txs
 			used, err = tt.ReadFrom(bytes.NewReader(c.in))
+			if err == nil {
+				txs = tt
+			}
+		case "listp":
+			src := bytes.NewReader(c.in)
+			var tt bt.Txs
+			used, err = tt.ReadFrom(plainReader{src})
+			e["left"] = src.Len()
 			if err == nil {
 				txs = tt
 			}
@@ -499,7 +521,7 @@ func txwire(args []string) error {
 	var cases []wcase
 	parseAll := func(src string, b []byte, apis ...string) {
 		if len(apis) == 0 {
-			apis = []string{"bytes", "stream", "reader", "reader1"}
+			apis = []string{"bytes", "stream", "reader", "reader1", "readerp"}
 		}
 		for _, a := range apis {
 			if strings.HasPrefix(a, "json") && len(b) == 0 {
@@ -543,10 +565,11 @@ func txwire(args []string) error {
 			parseAll("gen-nonminimal", gm.raw, "bytes", "stream", "reader1")
 			// streams: tx followed by another tx / junk; counted lists
 			g2 := gen(rng, rng.Intn(2) == 0, false, false)
-			parseAll("gen-stream", append(append([]byte{}, g.raw...), g2.raw...), "stream", "reader", "bytes")
+			parseAll("gen-stream", append(append([]byte{}, g.raw...), g2.raw...), "stream", "reader", "bytes", "readerp")
 			if len(g.raw) < 5000 {
 				lst := append(vint(2, minWidth(2)), append(append([]byte{}, g.raw...), g2.raw...)...)
-				parseAll("gen-list", lst, "list")
+				parseAll("gen-list", lst, "list", "listp")
+				parseAll("gen-list", append(append([]byte{}, lst...), g.raw...), "list", "listp") // data follows the list
 				parseAll("gen-list", append(vint(3, 1), lst[1:]...), "list") // claims one more than present
 				parseAll("gen-list", append(vint(1, 1), lst[1:]...), "list") // stops at count
 			}
